@@ -29,6 +29,7 @@ def Py.fieldDec (e : Endian) (all : List Member) (n : String) (t : Ty) (k : MKin
       if (data.length : Int) - (pos0 : Int) < (c : Int) then .error .prophy
       else pure (Val.bytes (Py.slice data pos0 c), c, hints)
     | _ => do
+      if (f.size : Int) > (data.length : Int) - (pos0 : Int) then .error .prophy
       let (vs, cur) ← Py.decN (fun d q => Py.decTy e t d q false) c data pos0 0
       pure (Val.arr vs, cur, hints)
   | .dyn _ _ => do
